@@ -664,7 +664,7 @@ func run(c *vf.Ctx) {
 	// the deliveries of both encrypted classes and of link frames: what was accepted stays refused
 	traces += refusedSetups(c)
 
-	rejectAt, inv, tres, err := c.TraceCheck("SeqWindow_Trace", "SeqWindow_Trace.cfg", events, vf.TLCOpts{Timeout: 20 * time.Minute, Heap: "8g"})
+	rejectAt, inv, tres, err := c.TraceCheck("SeqWindow_Trace", "SeqWindow_Trace.cfg", events, vf.TLCOpts{Timeout: time.Duration(c.Pick(20, 90)) * time.Minute, Heap: "8g"})
 	if err != nil {
 		c.Fatal("T: %v", err)
 	}
